@@ -67,6 +67,9 @@ type Attempt struct {
 	PreSalt   [2]uint32
 	PreWALLen int64
 	NewFiles  []string // files that appeared in the staging directory during the attempt
+	// ManagerCalled is false when the attempt failed before CheckpointManager.Checkpoint
+	// was reached (its reset watch was then neither consulted nor changed).
+	ManagerCalled bool
 }
 
 // Hooks are the property-specific observers.
@@ -515,6 +518,7 @@ func (e *Engine) runAttempt(a *Attempt) {
 		}
 	}()
 	if a.Full {
+		a.ManagerCalled = true
 		meta, n, err := e.CM.Checkpoint(nil, e.Timeout)
 		a.Meta, a.N, a.Err = meta, n, err
 		if err == nil && !meta.Success() {
@@ -536,6 +540,7 @@ func (e *Engine) runAttempt(a *Attempt) {
 		return
 	}
 	defer walWriter.Cancel()
+	a.ManagerCalled = true
 	meta, n, err := e.CM.Checkpoint(walWriter, e.Timeout)
 	a.Meta, a.N, a.Err = meta, n, err
 	if err != nil {
